@@ -17,6 +17,9 @@ typedef struct VecUS { unsigned short d[TV_MAX]; unsigned long size; } VecUS;
 #define VecBool_at(v, i) TV_AT(v, i)
 #define VecLabel_at(v, i) TV_AT(v, i)
 #define VecUS_at(v, i) TV_AT(v, i)
+#define VecBool_ctor0() ((VecBool){ { 0 }, 0 })      /* default-constructed: empty */
+#define VecLabel_ctor0() ((VecLabel){ { 0 }, 0 })
+#define VecUS_ctor0() ((VecUS){ { 0 }, 0 })
 #define VecBool_size(v) ((v)->size)
 #define VecLabel_size(v) ((v)->size)
 #define VecUS_size(v) ((v)->size)
